@@ -238,6 +238,19 @@ pub fn c20_cases(rng: &mut Rng, tier: &str) -> (Vec<Case>, bool) {
         }
         cases.push(Case { ops, checks, tag: "several-documents".into(), nontrivial: true, show: format!("{:?}", show) });
     }
+    // a document with more than a thousand diagnostics (and one real error after them): every one is published
+    for (warn_lines, tail) in [(1001usize, ""), (1000, "\n10 PRINT \"é\" + 1"), (1200, "\n20 GOTO 99")] {
+        let mut d = String::new();
+        for i in 0..warn_lines {
+            if i > 0 {
+                d.push('\n');
+            }
+            d.push_str(if i % 2 == 0 { "PRINT 1" } else { "X = 2" });
+        }
+        d.push_str(tail);
+        let ops = vec!["new 0 0".to_string(), format!("lsp {}", hexs(&d))];
+        cases.push(Case { ops, checks: vec!["lsp-wellformed 1".into()], tag: "thousand-diagnostics".into(), nontrivial: true, show: format!("{} unnumbered lines{}", warn_lines, tail.replace('\n', " | ")) });
+    }
     // every handshake a client may open with, then documents with text outside ASCII before and inside the reported ranges
     for hello in 0..5 {
         let mut ops = vec!["new 0 0".to_string(), format!("lsphello {}", hello)];
@@ -387,6 +400,26 @@ pub fn c06_cases(rng: &mut Rng, tier: &str) -> (Vec<Case>, bool) {
                 let b = w.last();
                 cases.push(Case { ops: w.ops, checks: vec![format!("agree-sound {} {}-{}", ai, a0, b)], tag: "function-arity".into(), nontrivial: true, show: text.replace('\n', " | ") });
             }
+        }
+    }
+    // INPUT with every shape of target list, answered: what the analyzer lets through must not fail with a syntax error when
+    // the reply arrives (this dialect reads ONE target per INPUT)
+    for stmt in ["INPUT A", "INPUT A, B", "INPUT A$, B", "INPUT A,", "INPUT A B", "INPUT A; B", "INPUT \"prompt\"; A", "INPUT A(1), B(2)", "INPUT A : INPUT B", "INPUT", "INPUT 5", "INPUT A, B, C$"] {
+        for wrap in ["10 {}", "10 IF X = 0 THEN PRINT 1 ELSE {}", "10 FOR I = 1 TO 2 : {} : NEXT I"] {
+            let text = format!("{}\n20 PRINT \"end\"", wrap.replace("{}", stmt));
+            let mut w = Walk::new(false, false);
+            w.op(&analyze_op(&text));
+            let ai = w.last();
+            let a0 = w.ops.len();
+            for l in text.split('\n') {
+                w.start(l);
+            }
+            w.start("RUN");
+            let mut nr = 0;
+            w.drive(&["1".to_string(), "2".to_string(), "x".to_string(), "3".to_string()], &mut nr, 40, false);
+            w.state();
+            let b = w.last();
+            cases.push(Case { ops: w.ops, checks: vec![format!("agree-sound {} {}-{}", ai, a0, b)], tag: "input-target-lists".into(), nontrivial: true, show: text.replace('\n', " | ") });
         }
     }
     // small programs: no analysis error => no syntax / type / undefined-line failure at run time, on several input scripts
